@@ -334,6 +334,12 @@ def w_F26(ctx):
     return _design(ctx, _leaf([w, T2], [1], [{"k": "ExactlyK", "n": 1, "f": 0, "l": 0}]), ["mismatch"])
 
 
+def w_F30(ctx):
+    s3 = _sf(0, ["c1", "c2", "c3"])
+    w = _sf(1, ["big", "small"], [2, 1])
+    return _design(ctx, _leaf([s3, w], [0], [{"k": "Sequential", "f": 1}]), ["mismatch"])
+
+
 def w_F28(ctx):
     b = _leaf([C2, T2], [0], [])["block"]
     lhs = {"factors": [C2, T2], "block": {"k": "multicross", "design": [0, 1], "crossings": [[0], [1]], "cs": [], "rcc": True,
